@@ -22,6 +22,9 @@ type X struct {
 	pkgs map[string][]*ast.File
 	defs []string
 	errs []string
+	// imports / opens of the generated module (used by the translator, xlate.go)
+	imports []string
+	opens   []string
 	// normalize: rewrite parsed files (constant inlining, switch -> if chains); see normalize.go
 	normalize bool
 }
@@ -227,8 +230,22 @@ func (x *X) defRaw(s string) { x.defs = append(x.defs, s) }
 
 func (x *X) render() string {
 	var b strings.Builder
+	seen := map[string]bool{}
+	for _, im := range x.imports {
+		if !seen[im] {
+			fmt.Fprintf(&b, "import %s\n", im)
+			seen[im] = true
+		}
+	}
 	fmt.Fprintf(&b, "-- GENERATED by /verif/tools/factgen from the current /repo tree. Do not edit.\n")
-	fmt.Fprintf(&b, "namespace Fabio.Generated.%s\n\n", x.prop)
+	fmt.Fprintf(&b, "namespace Fabio.Generated.%s\n", x.prop)
+	for _, o := range x.opens {
+		if !seen["open "+o] {
+			fmt.Fprintf(&b, "open %s\n", o)
+			seen["open "+o] = true
+		}
+	}
+	fmt.Fprintf(&b, "\n")
 	for _, d := range x.defs {
 		b.WriteString(d)
 		b.WriteString("\n\n")
